@@ -838,3 +838,87 @@ def st_vk1_case(draw):
 def asan_vk1_proc(case, ctx):
     ctx.nontrivial([case["pa"]["coef_order"], case["pa"]["nalpha"], case["proc"], case["ng"]])
     _asan_body(case, ctx)
+
+
+# ------------------------------------------------------------------------------------------------
+_ATCO = {}
+
+
+def _atco(elem, lmax):
+    key = (elem, lmax)
+    if key not in _ATCO:
+        from pyscf import gto
+
+        from ciderpress.dft.lcao_convolutions import ANG_OF, ATCBasis
+        from ciderpress.pyscf.nldf_convolutions import aug_etb_for_cider, get_gamma_lists_from_mol
+
+        mol = gto.M(atom=elem, basis="sto-3g", verbose=0, spin=None)
+        mol = gto.M(atom=elem, basis=aug_etb_for_cider(mol, lmax=lmax, beta=2.8), verbose=0, spin=None)
+        _ATCO[key] = (ATCBasis(*get_gamma_lists_from_mol(mol)), int(np.max(mol._bas[:, ANG_OF])))
+    return _ATCO[key]
+
+
+@st.composite
+def st_rad2orb_case(draw):
+    nalpha = draw(st.integers(1, 5))
+    offset = draw(st.integers(0, 4))
+    room = draw(st.sampled_from([-2, -1, 0, 0, 1, 3]))     # stride - (offset + nalpha); negative = invalid
+    return {"elem": draw(st.sampled_from(["H", "He", "Li"])), "lmax": draw(st.integers(0, 3)), "nalpha": nalpha, "offset": offset,
+            "stride": max(1, offset + nalpha + room), "nrad": draw(st.integers(1, 7)), "rad2orb": draw(st.booleans()),
+            "offset_none": draw(st.integers(0, 5)) == 0, "seed": draw(st.integers(0, 2 ** 31 - 1))}
+
+
+def _rad2orb_body(case, ctx):
+    atco, lmax = _atco(case["elem"], case["lmax"])
+    nlm = (lmax + 1) ** 2
+    nq, stride, nrad = case["nalpha"], case["stride"], case["nrad"]
+    offset = None if case["offset_none"] else case["offset"]
+    off = 0 if offset is None else offset
+    valid = off + nq <= stride
+    rng = rng_from(case["seed"])
+    rad = 0.05 * (np.exp(0.6 * np.arange(nrad)) - 1) + 0.01
+    buf = np.full(atco.nao * stride + 64, np.nan)
+    p = buf[: atco.nao * stride].reshape(atco.nao, stride)
+    p[:] = rng.normal(size=p.shape)
+    p0 = p.copy()
+    tbuf = np.full(nrad * nlm * nq + 64, np.nan)
+    th = tbuf[: nrad * nlm * nq].reshape(nrad, nlm, nq)
+    th[:] = rng.normal(size=th.shape)
+    loc = np.asarray([0, nrad], dtype=np.int32) if case["rad2orb"] else np.zeros(nrad, dtype=np.int32)
+    ctx.event("%s valid=%s lmax=%d" % ("rad2orb" if case["rad2orb"] else "orb2rad", valid, lmax))
+    try:
+        atco.convert_rad2orb_(th, p, loc, rad, case["rad2orb"], offset=offset)
+    except Exception as e:
+        ctx.check(not valid, ("rad2orb", "valid_call_rejected"), error=type(e).__name__, message=str(e)[:100])
+        ctx.event("rejected_with=" + type(e).__name__)
+        return
+    ctx.check(valid, ("rad2orb", "accepts_offset_plus_nalpha_beyond_stride"), offset=off, nalpha=nq, stride=stride)
+    ctx.check(np.all(np.isnan(buf[atco.nao * stride:])) and np.all(np.isnan(tbuf[nrad * nlm * nq:])), ("rad2orb", "writes_beyond_buffer"))
+    if case["rad2orb"]:
+        ctx.equal_bits(p[:, :off], p0[:, :off], ("rad2orb", "columns_outside_window_touched"))
+        ctx.equal_bits(p[:, off + nq:], p0[:, off + nq:], ("rad2orb", "columns_outside_window_touched"))
+        ctx.finite(p, ("rad2orb", "output"))
+    else:
+        ctx.equal_bits(p, p0, ("orb2rad", "input_modified"))
+        ctx.finite(th, ("orb2rad", "output"))
+
+
+_RAD2ORB_RULE = ("ATCBasis.convert_rad2orb_ (contract_rad_to_orb / contract_orb_to_rad) on the ETB basis of H/He/Li with lmax 0-3, "
+                 "1-7 radial points, nalpha 1-5, column offset 0-4 (or None), stride = offset + nalpha + {-2..3}; oracle: "
+                 "offset + nalpha > stride raises; otherwise only the columns [offset, offset+nalpha) change, NaN canaries behind "
+                 "both arrays stay intact, output finite; non-trivial = stride != nalpha or offset > 0")
+
+
+@subcheck("C18", "rad2orb_offsets", st_rad2orb_case, quick=500, thorough=10000, rule=_RAD2ORB_RULE, tolerances={})
+def rad2orb_offsets(case, ctx):
+    if case["stride"] != case["nalpha"] or case["offset"] > 0:
+        ctx.nontrivial([case["elem"], case["lmax"], case["nalpha"], case["offset"], case["stride"], case["rad2orb"], case["offset_none"]])
+    _rad2orb_body(case, ctx)
+
+
+@subcheck("C18", "asan_rad2orb", st_rad2orb_case, quick=250, thorough=5000, variant="asan",
+          rule="the cases of rad2orb_offsets under the ASan+UBSan build; non-trivial = the call returned or was rejected normally",
+          tolerances={})
+def asan_rad2orb(case, ctx):
+    ctx.nontrivial([case["elem"], case["lmax"], case["nalpha"], case["offset"], case["stride"], case["rad2orb"]])
+    _rad2orb_body(case, ctx)
